@@ -515,8 +515,8 @@ func (s *Server) Unlock(passphrase []byte) error {
 
 // Signers returns the available singers from the in-memory certs and underlying agent.
 func (s *Server) Signers() ([]ssh.Signer, error) {
-	s.mu.RLock()
-	defer s.mu.RUnlock()
+	s.mu.Lock()
+	defer s.mu.Unlock()
 
 	if s.locked {
 		return nil, errors.New("agent is locked")
